@@ -231,6 +231,13 @@ def u32(x):
     return struct.pack("<I", x & 0xFFFFFFFF)
 
 
+def _running(tasks, pr, stk):
+    if not stk:
+        return None
+    (tid, bid) = stk[-1]
+    return (tid, bid) if tasks[pr][tid]["bodies"][bid]["st"] == "R" else None
+
+
 def task_history(rng, s, tables, model, build, wrong_num=2):
     """a scenario with task events of `model` ('nosv' or 'nanos6') on top of a simple thread history"""
     from .emucore import Jumbo, gids, task_label
@@ -271,6 +278,11 @@ def task_history(rng, s, tables, model, build, wrong_num=2):
     tasks = {}     # proc -> {taskid: dict(par, bodies{bid: state}, on)}
     stacks = {t: [] for t in range(n)}
     need_labels = set()
+    shadow = []   # (clock, thread, (taskid, bodyid) of the running body or None, thread state)
+    s.task_shadow = shadow
+    s.task_info = tasks
+    s.task_stacks = stacks
+    s.task_tstate = tstate
     for pr in procs:
         tl = [t for t in range(n) if (s.threads[t]["loom"], s.threads[t]["pid"]) == pr]
         for k in range(rng.range(1, 3)):
@@ -306,8 +318,9 @@ def task_history(rng, s, tables, model, build, wrong_num=2):
                 ev.append((t, clk, "OHp", b"")); tstate[t] = "Paused"
             elif tstate[t] == "Paused":
                 ev.append((t, clk, "OHr", b"")); tstate[t] = "Running"
+            shadow.append((clk, t, _running(tasks, pr, stacks[t]), tstate[t]))
             continue
-        if tstate[t] != "Running" and not rng.chance(1, 10):
+        if tstate[t] != "Running" and (wrong_num == 0 or not rng.chance(1, 10)):
             continue
         tk = tasks.get(pr, {})
         if not tk:
@@ -359,6 +372,7 @@ def task_history(rng, s, tables, model, build, wrong_num=2):
             tk[tid]["wrapped"].discard(bid)
             tk[tid]["bodies"][bid]["st"] = "D"
             stk.pop()
+            shadow.append((clk - 1, t, _running(tasks, pr, stk), tstate[t]))
             continue
         ev.append((t, clk, M + "T" + kind, payload))
         if wrong:
@@ -374,6 +388,10 @@ def task_history(rng, s, tables, model, build, wrong_num=2):
             info["bodies"][bid]["st"] = "P"
         elif kind == "r":
             info["bodies"][bid]["st"] = "R"
+        shadow.append((clk, t, _running(tasks, pr, stk), tstate[t]))
+    if getattr(s, "stop_before_winddown", False):
+        s.task_clock = clk
+        return
     # wind down
     for t in range(n):
         pr = (s.threads[t]["loom"], s.threads[t]["pid"])
